@@ -313,7 +313,7 @@ def check(run):
                 'of 4 holidays) replayed by overrides; samples as cells, literals and through the public file path; random arguments far outside '
                 'the grid judged by Trace_C15. One evaluation = one formula result; a row is non-trivial.')
     run.assumptions += ['results before 1900-03-01 or after 9999-12-31, month steps that leave the years 1..9999 on the way (DATE(9998,25,-70)) and two-digit years are not generated (the statement does not pin them)',
-                        'DATEDIF M/Y/YM is not demanded when the end date is the last day of a month shorter than the start day (Jan 31 -> Feb 28)',
+                        'a month counts as complete when the start day of the month is reached again (Excel: Jan 31 -> Feb 28 is 0 months)',
                         'TODAY is compared with the system clock, not by TLC']
     y0, y1 = (2023, 2024) if run.quick else (1999, 2001)
     inv = ['CivilRoundTrip', 'ConsecutiveDays', 'Anchors', 'DateNormLaws', 'YmdInvert', 'EoMonthIsLast', 'EDateClamps', 'EDateStepwise',
